@@ -274,9 +274,13 @@ var vC08Corpus = []string{
 	"&v1 = 1 + 2d6; v1", "`a{1}b{% x = 2 %}c`", "`{% if 1 { 2 } %}`", "[1,2,3][0]", "[1,2][0:1]", "v1 = [1,2]; v1[0] = 3; v1[0:1] = [4]", "{'k': 1}.k", "dd = {}; dd.k = dd['j'] = []",
 	"2d6kh1 + d20优势", "(2d6)d(3d4)", "b2 + p", "3a8k6m9", "2c8m10", "f", "[d6, 2]kh", "[1,2].kh(1)", "x.y.z", "x[1][2]", "fn1(1)(2)", "1 ?? 2 ?? 3",
 	"i = 0; while i < 2 { j = 0; while j < 2 { j = j + 1; if j { continue } }; i = i + 1 }", "if 1 { if 2 { if 3 { 4 } } }", "-1 + +2 ** 3", "x = y = 3", "this.q = 1",
+	"i = 0; while i < 2 { i = i + 1; j = 0; while j < 2 { j = j + 1; break } }; i",
+	"i = 0; while i < 2 { i = i + 1; j = 0; while j < 2 { j = j + 1; continue }; 7 }; i",
+	"i = 0; while i < 2 { i = i + 1; j = 0; while j < 2 { j = j + 1; k = 0; while k < 2 { k = k + 1; break }; continue } }; i",
+	"func fn1() { i = 0; while i < 2 { i = i + 1; j = 0; while j < 2 { j = j + 1; break } } }; fn1()",
 }
 
-//vh:prop=C08 tiers=quick,thorough sigkeys=prog budget_s=600 bounds="35 programs composing every control construct (short-circuit, ternary, multi-arm, if/else-if, nested loops with break/continue, functions with early return, computed values, templates with statement holes, chained indexing/attributes, every dice family), verified as in VH_C08_src"
+//vh:prop=C08 tiers=quick,thorough sigkeys=prog budget_s=600 bounds="39 programs composing every control construct (short-circuit, ternary, multi-arm, if/else-if, nested loops with break/continue, functions with early return, computed values, templates with statement holes, chained indexing/attributes, every dice family), verified as in VH_C08_src"
 func VH_C08_corpus() {
 	k := vChoice("prog", len(vC08Corpus))
 	vm := vNewVM()
